@@ -11,7 +11,7 @@
 (* already failed are not evaluated), and one VERDICT line is printed per    *)
 (* trace.  The search is linear (out-degree 1).                              *)
 EXTENDS Naturals, Integers, Sequences, FiniteSets, TLC, Json, IOUtils,
-        LayerStack, Selection
+        LayerStack, Selection, LayerOrder
 
 Traces == JsonDeserialize(IOEnv.TRACE_FILE)
 N == Len(Traces)
@@ -78,6 +78,7 @@ C03(c) == <<"C03", c>>
 C04(c) == <<"C04", c>>
 C05(c) == <<"C05", c>>
 C12(c) == <<"C12", c>>
+C10(c) == <<"C10", c>>
 C16(c) == <<"C16", c>>
 
 (* the current test is over (bracket closed or another event proves it) *)
@@ -360,11 +361,20 @@ Final(w, o, s, r) ==
                              j \in 1..Len(r.peers[k].execPairs)} # s.seen
                    THEN "C03:modes-execute-different-tests"
               ELSE ""
+      \* C10: the layers of a sequential run appear once each, unit layer
+      \* first, never before one of their bases that also has tests
+      RunLayers == {LayerOf(w, t) : t \in Selected(w, o)}
+      c10 == IF o.list \/ o.stop \/ o.j > 1 \/ r.crashed # "" \/ s.procs > 1 \/ w.importFails THEN ""
+             ELSE IF ~NoDup(r.layers) THEN "C10:layer-run-twice"
+             ELSE IF SeqSet(r.layers) # RunLayers THEN "C10:layers-run-differ-from-selected"
+             ELSE IF ~TopoSeq(w.bases, r.layers) THEN "C10:layer-before-its-base"
+             ELSE IF Unit \in RunLayers /\ r.layers[1] # Unit THEN "C10:unit-layer-not-first"
+             ELSE ""
       c02b == IF o.list THEN ""
               ELSE IF \E k \in 1..Len(r.peers) : PeerOK(r.peers[k]) /\ r.peers[k].failed # r.failed
                    THEN "C02:modes-verdict-differs" ELSE ""
   IN NoteAllF(s, <<C04(c04), C04(c04b), C03(c03), C03(c03b), C03(c03l), C03(c03m), C01(c01), C02(c02), C02(c02b),
-                  C16(c16), C12(c12a), C12(c12b), C12(c12c), C12(c12d)>>)
+                  C10(c10), C16(c16), C12(c12a), C12(c12b), C12(c12c), C12(c12d)>>)
 
 (* ----- behaviour -----------------------------------------------------------*)
 Ev(t) == Traces[t].ev
